@@ -329,6 +329,70 @@ func execOpAPIEditedAttrs(c *Case) (Observation, bool) {
 	return apply(), true
 }
 
+// execOpAPINegNaN: "NaN" in the specification is any NaN. The harness builds its NaN operands with the sign bit clear; the NaN that
+// amd64 arithmetic produces (0*Inf, Inf-Inf, 0/0) has the sign bit SET. The case is executed again with every NaN operand element
+// replaced by that one; the expected outcome is the same (numeric comparison: a NaN is expected where a NaN is expected).
+func execOpAPINegNaN(c *Case) (Observation, bool) {
+	if c.Cmp == "bits" || c.Cmp == "rawbits" {
+		return Observation{}, false
+	}
+	inputs, err := mkInputs(c)
+	if err != nil {
+		return Observation{}, false
+	}
+	any := false
+	for _, t := range inputs {
+		if t == nil || t.Shape().TotalSize() == 0 {
+			continue
+		}
+		if t.IsScalar() {
+			continue // (the backing of a scalar is a value: covered through the one-element cases)
+		}
+		switch d := t.Data().(type) {
+		case []float32:
+			for i, v := range d {
+				if v != v {
+					d[i] = math.Float32frombits(math.Float32bits(v) | 0x80000000)
+					any = true
+				}
+			}
+		case []float64:
+			for i, v := range d {
+				if v != v {
+					d[i] = math.Float64frombits(math.Float64bits(v) | 0x8000000000000000)
+					any = true
+				}
+			}
+		}
+	}
+	if !any {
+		return Observation{}, false
+	}
+	ins, outs := ioNames(c)
+	node, err := mkNode(c.Op, c.Attrs, ins, outs)
+	if err != nil {
+		return Observation{}, false
+	}
+	return guard(func() Observation {
+		op, err := opset13.GetOperator(c.Op)
+		if err != nil {
+			return observeErr(err)
+		}
+		if err := op.Init(node); err != nil {
+			return observeErr(err)
+		}
+		v, err := op.ValidateInputs(inputs)
+		if err != nil {
+			return observeErr(err)
+		}
+		res, err := op.Apply(v)
+		if err != nil {
+			return observeErr(err)
+		}
+		return valueObs(res)
+	}), true
+}
+
 // cloneOperandsFor: the spare-capacity mode also uses cloned operands (unless two positions must be one object)
 func cloneOperandsFor(c *Case) bool { return len(c.Same) == 0 }
 
@@ -675,6 +739,9 @@ func execOpCase(c *Case) []ModeResult {
 				}
 				if o8, ok := execOpAPISharedAttrs(c); ok {
 					out = append(out, ModeResult{"api:attributes-in-one-array", Verdict(c, o8), o8.Short()})
+				}
+				if o11, ok := execOpAPINegNaN(c); ok {
+					out = append(out, ModeResult{"api:nan-sign-bit-set", Verdict(c, o11), o11.Short()})
 				}
 				if o10, ok := execOpAPIEditedAttrs(c); ok {
 					out = append(out, ModeResult{"api:attribute-objects-edited-in-place", Verdict(c, o10), o10.Short()})
